@@ -46,6 +46,7 @@ type Report struct {
 	Notes      []string
 	Assume     []string
 	NotDecided []string
+	NoReplay   bool
 	start      time.Time
 }
 
@@ -95,6 +96,9 @@ func (r *Report) Check(ok bool, rule, construct, pos, okDetail, badDetail string
 // to the sinks crosses a success edge of g.
 func (r *Report) CutOb(p *Prog, rule, construct, pos string, res CutResult, g Guard) {
 	switch {
+	case len(res.Instances) == 0 && !res.Reachable:
+		r.Add(Obligation{Rule: rule, Construct: construct, Pos: pos, Verdict: Undecided,
+			Detail: "the sink is not reachable from the function entry at all (dead code or a misresolved anchor): nothing to decide for guard " + g.Name})
 	case len(res.Instances) == 0 && res.Reachable:
 		r.Add(Obligation{Rule: rule, Construct: construct, Pos: pos, Verdict: Violated,
 			Detail: "no instance of guard " + g.Name + " found and the sink is reachable", Witness: res.Witness})
@@ -226,18 +230,22 @@ func (r *Report) Finish(p *Prog, verifDir string, seed int64, writeEvidence bool
 	if p.GOOS != "" || p.GOARCH != "" {
 		replayDir += "-" + p.GOOS + "-" + p.GOARCH
 	}
-	os.RemoveAll(replayDir)
+	if !r.NoReplay {
+		os.RemoveAll(replayDir)
+	}
 	var vioLines []string
 	for _, o := range r.Obls {
 		if o.Verdict != Violated && o.Verdict != Undecided {
 			continue
 		}
-		os.MkdirAll(replayDir, 0o755)
 		h := sha1.Sum([]byte(o.Key()))
 		name := strings.NewReplacer("/", "_", " ", "_").Replace(o.Rule) + "-" + hex.EncodeToString(h[:4]) + ".json"
 		path := filepath.Join(replayDir, name)
-		b, _ := json.MarshalIndent(map[string]any{"property": r.Property, "obligation": o}, "", " ")
-		os.WriteFile(path, b, 0o644)
+		if !r.NoReplay {
+			os.MkdirAll(replayDir, 0o755)
+			b, _ := json.MarshalIndent(map[string]any{"property": r.Property, "obligation": o}, "", " ")
+			os.WriteFile(path, b, 0o644)
+		}
 		vioLines = append(vioLines, fmt.Sprintf("VIOLATION property=%s replay=%s", r.Property, path))
 		fmt.Printf("  %s %s [%s] %s\n    %s\n", strings.ToUpper(o.Verdict), o.Rule, o.Construct, o.Pos, o.Detail)
 		for _, w := range o.Witness {
